@@ -338,6 +338,10 @@ var codeShapes = []string{
 	// (eighth round) the end tag spread over three nodes; nested / mismatched svg and math; a split svg name
 	`<script>x<{{if .F}}{{end}}/{{if .F}}{{end}}script><img src="x" onerror="1//</script>@@">`, `{{define "e"}}ipt{{end}}<script>x</scr{{template "e"}}><img src="x" onerror="1//</script>@@">`,
 	`<svg><svg></svg><style><img src="x" onerror="1//</style>@@"></svg>`, `<math></svg><style><img src="x" onerror="1//</style>@@"></math>`, `<sv{{if .F}}{{end}}g><style><img src="x" onerror="1//</style>@@"></svg>`,
+	// (ninth round) what does NOT close an svg / math element: break-out start tags inside an integration point, the "/"
+	// of an unquoted value, the end tag of the other branch's element
+	`<svg><foreignObject><p>hello</p></foreignObject><style><img src="x" onerror="1//</style>@@"></svg>`, `<math><mi><b>x</b></mi><script><img src="x" onerror="1//</script>@@"></math>`,
+	`<svg width=100/><style><img src="x" onerror="1//</style>@@">`, `{{if .F}}<svg>{{else}}<math>{{end}}</svg><style><img src="x" onerror="1//</style>@@">`,
 	`<img{{if .F}}{{end}}x="</a tabindex=1 autofocus onfocus="1>/*<b>*/@@">`, `<p>a</p{{if .F}}{{end}}x="><script>/*">*/@@</script>`,
 	// text after a template node continues the name of an END tag (F-endtagname)
 	`<bdi>a</b{{if .C}}data-x="@@"{{end}}di>`, `<button {{range .L2}}data-x="@@"></b{{end}}utton>`, `<bdi>a</b{{if .F}}z{{end}}data-x="@@">`,
